@@ -2,6 +2,7 @@ package simrt
 
 import (
 	"fmt"
+	"reflect"
 	"sort"
 )
 
@@ -94,3 +95,51 @@ func keysDraw(n int) int {
 	}
 	return w.choose(3, n)
 }
+
+// MapIter replaces *reflect.MapIter for `v.MapRange()` in instrumented code:
+// the iteration order comes from the world, not from the runtime.
+type MapIter struct {
+	m    reflect.Value
+	keys []reflect.Value
+	i    int
+}
+
+// MapKeys returns v.MapKeys() in the order the installed world dictates.
+func MapKeys(v reflect.Value) []reflect.Value {
+	keys := v.MapKeys()
+	if len(keys) < 2 {
+		return keys
+	}
+	sort.SliceStable(keys, func(i, j int) bool { return reflectLess(keys[i], keys[j]) })
+	order(len(keys), func(i, j int) { keys[i], keys[j] = keys[j], keys[i] })
+	return keys
+}
+
+func reflectLess(a, b reflect.Value) bool {
+	switch a.Kind() {
+	case reflect.String:
+		return a.String() < b.String()
+	case reflect.Int, reflect.Int8, reflect.Int16, reflect.Int32, reflect.Int64:
+		return a.Int() < b.Int()
+	case reflect.Uint, reflect.Uint8, reflect.Uint16, reflect.Uint32, reflect.Uint64, reflect.Uintptr:
+		return a.Uint() < b.Uint()
+	}
+	return fmt.Sprint(a) < fmt.Sprint(b)
+}
+
+// MapRange replaces reflect.Value.MapRange.
+func MapRange(v reflect.Value) *MapIter {
+	return &MapIter{m: v, keys: MapKeys(v), i: -1}
+}
+
+// Next advances the iterator.
+func (it *MapIter) Next() bool {
+	it.i++
+	return it.i < len(it.keys)
+}
+
+// Key returns the current key.
+func (it *MapIter) Key() reflect.Value { return it.keys[it.i] }
+
+// Value returns the current value.
+func (it *MapIter) Value() reflect.Value { return it.m.MapIndex(it.keys[it.i]) }
